@@ -1,6 +1,19 @@
 (* C03 - Severity routing and writer-set configuration follow the documented model. *)
 Require Import Verif.Model.Base Verif.Model.Writers.
 Require Import Verif.Proofs.WritersP.
+Require Import Verif.Model.GoSem.
+Require Verif.Gen.Routing Verif.Proofs.GenRouteP.
+
+(* tie: dualWriter.Get as it is in /repo now (translated on every run, Gen/Routing.v) computes the
+   routing function of the model, for every error-device table [m] (a Go map[Level]bool, of which
+   only the key set matters), every writer configuration [x] and every severity; the per-level
+   map of the code may be nil (None) when the model's association list is empty *)
+Theorem C03_gen_route : forall (m : list (Z * bool)) (x : dualwriter) lvl,
+  Routing.route m [Wrapped w_discard] (dw_normal x) (dw_error x) (Some (dw_leveled x)) lvl = dw_get (map fst m) x lvl
+  /\ (dw_leveled x = [] ->
+      Routing.route m [Wrapped w_discard] (dw_normal x) (dw_error x) None lvl = dw_get (map fst m) x lvl).
+Proof. exact GenRouteP.gen_route. Qed.
+Print Assumptions C03_gen_route.
 
 (* After ANY sequence of set/add/remove/reset operations (methods or New(...) options; [None] =
    a logger never given writers) the configuration is what the sequence denotes: set replaces,
